@@ -1,15 +1,7 @@
 #![allow(dead_code)]
-#[macro_use]
-mod engine;
-mod exp;
-mod gens;
-mod models;
-mod pipeline;
-mod props;
-mod refwit;
-mod rlnh;
+use vharness::engine::*;
+use vharness::{exp, props};
 
-use engine::*;
 use std::path::PathBuf;
 
 fn usage() -> ! {
@@ -66,6 +58,10 @@ macro_rules! dispatch {
     };
 }
 
+fn fuzz_decode<P: Property>(p: &P, ctx: &Ctx, data: &[u8]) -> i32 {
+    vharness::fuzzing::decode_and_check(p, ctx, data)
+}
+
 fn main() {
     let args: Vec<String> = std::env::args().collect();
     if args.len() < 2 {
@@ -97,6 +93,15 @@ fn main() {
             let ctx = make_ctx(id, Tier::Quick, strict);
             let path = PathBuf::from(&args[3]);
             let code = dispatch!(id, replay_property, &ctx, &path);
+            cleanup_tmp(&ctx);
+            std::process::exit(code);
+        }
+        "fuzz-decode" => {
+            let id = args[2].as_str();
+            let ctx = make_ctx(id, Tier::Quick, false);
+            let data = std::fs::read(&args[3]).unwrap_or_default();
+            let data = data.as_slice();
+            let code = dispatch!(id, fuzz_decode, &ctx, data);
             cleanup_tmp(&ctx);
             std::process::exit(code);
         }
